@@ -34,8 +34,9 @@ func checkC01(c InCase, w *watch) (f *report.Failure, accepted bool) {
 	if err != nil || e == nil {
 		return nil, false
 	}
-	// a %! in the output can only be legitimate if the input itself contains %!
-	checkMarker := !bytes.Contains(bytes.ReplaceAll(c.Input, []byte(`\`), nil), []byte("%!"))
+	// a %! in the output can only be legitimate if the input itself - the query or the
+	// default field, which is printed as a field name - contains %!
+	checkMarker := !bytes.Contains(bytes.ReplaceAll(c.Input, []byte(`\`), nil), []byte("%!")) && !strings.Contains(c.DF, "%!")
 	opName = "String"
 	str := e.String()
 	if checkMarker && strings.Contains(str, "%!") {
@@ -115,7 +116,7 @@ func TestC01(t *testing.T) {
 	st := report.New("C01", cfg)
 	defer st.Finish(t)
 	st.Rule("inputs: exhaustive token sequences over several alphabets (joined by spaces), rapid-generated printed query trees (all styles), random byte strings / hostile fragments / token soups, and large adversarial shapes; each x default-field option. Every case runs Parse, ToPostgres, ToParameterizedPostgres and, if accepted, String, %#v, json.Marshal under recover and a watchdog. Non-trivial = Parse accepted the input, or rejected it after at least one token (non-blank input); distinct by (input, default field).")
-	st.Assume("Go runtime asynchronous pre-emption lets the watchdog run while the code under test spins", "polynomial time is evidenced by the growth table, only hangs are decided", "the %! marker is only checked when the input does not itself contain the two bytes %! (backslashes ignored)")
+	st.Assume("Go runtime asynchronous pre-emption lets the watchdog run while the code under test spins", "polynomial time is evidenced by the growth table, only hangs are decided", "the %! marker is only checked when neither the query (backslashes ignored) nor the default field contains the two bytes %!")
 	regress(t, st, "C01")
 	active := activeFindings(st, "C01")
 	_ = active
